@@ -37,17 +37,87 @@ ECI = ["decodation::eci::convert_chunk", "decodation::eci::decode_iso_8859_9", "
 reg("eci_tab_3", "eci", ["C15", "C05"], cap=200, bounds="one byte, all 256 values, ECI 0 and 3", encodes=ECI)
 reg("eci_tab_11", "eci", ["C15", "C05"], cap=200, bounds="one byte, all 256 values, ECI 11", encodes=ECI)
 reg("eci_tab_13", "eci", ["C15", "C05"], cap=200, bounds="one byte, all 256 values, ECI 13", encodes=ECI)
-reg("eci_utf8_ascii", "eci", ["C15", "C05"], cap=300, bounds="0..=3 arbitrary bytes under ECI 26 and ECI 27", encodes=ECI)
+reg("eci_ascii_2", "eci", ["C15", "C05"], cap=600, bounds="0, 1 and 2 arbitrary bytes under ECI 27", encodes=ECI)
+reg("eci_utf8_2", "eci", ["C15", "C05"], cap=600, bounds="0, 1 and 2 arbitrary bytes under ECI 26", encodes=ECI)
+reg("eci_utf8_3", "eci", ["C15", "C05"], cap=900, bounds="3 arbitrary bytes under ECI 26", encodes=ECI)
+reg("eci_utf8_4", "eci", ["C15", "C05"], cap=1800, tier="thorough", bounds="4 arbitrary bytes under ECI 26", encodes=ECI)
 reg("np_eci_chunk", "eci", ["C05"], profiles=["dev", "rel"], cap=300, bounds="any u32 ECI number, 0..=2 arbitrary bytes", encodes=ECI)
 reg("eci_convert_spans", "eci", ["C14", "C05"], cap=400, bounds="0..=3 arbitrary bytes, one ECI span (3, 11, 26 or 27) at a symbolic offset", encodes=["decodation::eci::convert"] + ECI)
 reg("str_latin1_char", "data", ["C14"], cap=300, bounds="one arbitrary Unicode scalar value (all 0x10F800)", encodes=["data::utf8_to_latin1"])
 reg("str_latin1_byte", "data", ["C14"], cap=300, bounds="one byte, all 256 values", encodes=["data::latin1_to_utf8", "data::latin1_to_utf8_mut"])
 reg("str_latin1_two", "data", ["C14"], cap=300, bounds="two printable Latin-1 bytes, round trip through both helpers", encodes=["data::latin1_to_utf8", "data::utf8_to_latin1"])
-reg("str_dispatch", "lib", ["C14"], cap=600, stubbing=True, bounds="every string of 1..=2 arbitrary Unicode scalar values; DataMatrixBuilder::encode_eci replaced by a recording stub",
+reg("str_dispatch_1", "lib", ["C14"], cap=900, stubbing=True, bounds="every one-character string (any Unicode scalar value); DataMatrixBuilder::encode_eci replaced by a recording stub", encodes=["DataMatrixBuilder::encode_str", "data::utf8_to_latin1"])
+reg("str_dispatch", "lib", ["C14"], cap=3600, mem_gb=20, tier="thorough", role="attempt", stubbing=True, bounds="every string of 1..=2 arbitrary Unicode scalar values; DataMatrixBuilder::encode_eci replaced by a recording stub",
     encodes=["DataMatrixBuilder::encode_str", "data::utf8_to_latin1"])
 
 for n in ("acc_c40_st","acc_text_st"):
     reg(n, "dec", ["C04","C05"], cap=600, bounds="", encodes=["decodation::decode_c40_like"])
+for n in ("ascii_2","ascii_3","c40_1","c40_2","c40_3","text_2","text_3","x12_3","x12_5","edifact_2","edifact_4","edifact_5","b256_2","b256_3"):
+    reg("conf_" + n, "enc", ["C02", "C11", "C01"], cap=900, bounds="", encodes=[])
+reg("eci_rt", "enc", ["C15", "C02", "C11"], cap=300, bounds="every ECI number 0..=999999", encodes=["encodation::GenericDataEncoder::write_eci", "decodation::read_eci"])
+for n in ("mac_iff_12", "mac_iff_9_10", "mac_iff_7_8", "mac_iff_short"):
+    reg(n, "enc", ["C16", "C11", "C01"], cap=600, bounds="", encodes=["encodation::GenericDataEncoder::with_size", "encodation::GenericDataEncoder::use_macro_if_possible", "GenericDataEncoder::eat/backup/rest"])
+reg("pad_conf", "enc", ["C02", "C01"], cap=600, bounds="", encodes=["encodation::GenericDataEncoder::add_padding"])
+SYM = ["symbol_size::SymbolSize::num_data_codewords", "symbol_size::SymbolSize::block_setup", "symbol_size::SymbolSize::capacity", "symbol_size::SymbolSize::is_square/is_dmre/has_padding_modules", "symbol_size::BlockSetup::content_width/height"]
+reg("cat_attr", "sym", ["C12"], cap=300, bounds="symbolic index over all 48 sizes", encodes=SYM)
+reg("cat_ord", "sym", ["C12"], cap=600, bounds="three symbolic indices over all 48 sizes", encodes=["symbol_size::<SymbolSize as Ord>::cmp", "PartialOrd", "PartialEq"] + SYM[:2])
+reg("cat_all_once", "sym", ["C12"], cap=300, bounds="closed term: SYMBOL_SIZES array x symbolic variant index", encodes=["symbol_size::SYMBOL_SIZES"])
+reg("cat_caps_table", "sym", ["C12", "C02"], cap=300, role="oracle-validation", bounds="symbolic index over all 48 sizes", encodes=SYM[:1])
+for n in ("cat_filter_w_ei", "cat_filter_w_ie", "cat_filter_w_uu", "cat_filter_w_eu", "cat_filter_w_ui", "cat_filter_h_ei", "cat_filter_h_ie", "cat_filter_h_eu", "cat_filter_h_ue", "cat_filter_sq", "cat_filter_re"):
+    reg(n, "sym", ["C12"], cap=900, bounds="concrete 3-symbol list, symbolic (Bound, Bound) with values 0..=40 and kinds unbounded/included/excluded, symbolic filter kind", encodes=["SymbolList::enforce_width_in", "SymbolList::enforce_height_in", "SymbolList::enforce_square", "SymbolList::enforce_rectangular", "SymbolList::with_whitelist", "SymbolList::contains"])
+for n in ("cat_first_0", "cat_first_1", "cat_first_2", "cat_first_3"):
+    reg(n, "sym", ["C12", "C11", "C02"], cap=900, bounds="concrete list of 0..=3 symbols, symbolic need 0..=3200", encodes=["SymbolList::first_symbol_big_enough_for", "SymbolList::upper_limit_for_number_of_codewords", "SymbolList::max_capacity", "SymbolList::is_empty"])
+reg("gf_mul", "gf", ["C06"], cap=300, bounds="all 65536 operand pairs", encodes=["galois::<GF as Mul>::mul", "galois::LOG", "galois::ANTI_LOG"])
+reg("gf_div", "gf", ["C06", "C05"], cap=300, bounds="all dividends x all non-zero divisors", encodes=["galois::<GF as Div>::div"])
+reg("gf_log_pow", "gf", ["C06"], cap=300, bounds="all non-zero elements; all exponents 0..=254", encodes=["galois::GF::log", "galois::GF::primitive_power", "Add/Sub/Neg"])
+for n in "abcdef":
+    reg("rs_gen_" + n, "ec", ["C06"], cap=900, mem_gb=16, bounds="closed terms: generator polynomials of a group of degrees vs prod (x + 2^i)", encodes=["errorcode::GENERATOR_POLYNOMIALS", "errorcode::generator"])
+reg("rs_gen_exists", "ec", ["C06", "C12"], cap=300, bounds="symbolic index over the 48 sizes", encodes=["errorcode::generator", "SymbolSize::block_setup"])
+for n in ("5_11", "12_18", "20", "22", "24", "27", "28", "32", "34", "36", "38", "41", "42", "46", "48", "50", "56", "62", "68"):
+    reg("rs_step_" + n, "ec", ["C06"], cap=900, bounds="one LFSR step from an arbitrary register state (k symbolic bytes) with an arbitrary data byte", encodes=["errorcode::ecc_block", "errorcode::generator"])
+for n in ("sq10", "sq52", "sq64", "sq72", "sq104", "sq132", "sq144", "r8x32"):
+    reg("rs_il_" + n, "ec", ["C06", "C01"], cap=1200, mem_gb=16, bounds="all data codewords zero except the last one of every interleaved block (symbolic)", encodes=["errorcode::encode_error", "errorcode::ecc_block"])
+reg("rs_il2_sq144", "ec", ["C06"], cap=1800, mem_gb=16, tier="thorough", bounds="144x144: the last 20 data codewords symbolic (two per block), the rest zero", encodes=["errorcode::encode_error"])
+PL = ["placement::IndexTraversal::run", "placement::IndexTraversal::utah", "placement::IndexTraversal::corner1..4", "placement::IndexTraversal::idx"]
+for n in ("sq10","sq12","sq14","sq16","sq18","sq20","sq22","sq24","sq26","sq32","sq36","sq40","sq44","r8x18","r8x32","r12x26","r12x36","r16x36","r16x48","r8x48","r8x64","r8x80","r8x96","r8x120","r8x144","r12x64","r12x88","r16x64","r20x36","r20x44","r20x64","r22x48","r24x48","r24x64","r26x40","r26x48","r26x64"):
+    reg("pl_idx_" + n, "place", ["C07", "C01"], cap=1800, mem_gb=16, bounds="closed term per shape: the complete traversal vs Annex F", encodes=PL)
+reg("pl_cell_any", "place", ["C07"], cap=900, bounds="symbolic even mapping matrix 6..=132 x 6..=132, symbolic (i, j) inside it", encodes=PL[1:])
+for n in ("sq10", "sq12", "r8x18"):
+    reg("pl_rw_" + n, "place", ["C07", "C01"], cap=1800, mem_gb=16, bounds="all codewords of the symbol symbolic", encodes=["placement::MatrixMap::new_with_codewords", "copy_from_codewords", "traverse_mut", "bits_mut", "write_padding", "codewords", "traverse"] + PL)
+for n in ("sq10", "r8x18", "r8x32", "sq32", "r12x36", "r8x64"):
+    reg("fd_render_" + n, "place", ["C08", "C01"], cap=1800, mem_gb=16, bounds="every mapping-matrix entry symbolic", encodes=["placement::MatrixMap::bitmap", "placement::MatrixMap::new"])
+reg("synd_eval", "ecdec", ["C09", "C03", "C06"], cap=600, bounds="4 symbolic codewords, 3 syndromes", encodes=["decoding::primitive_element_evaluation"])
+reg("chien_lin", "ecdec", ["C05", "C03", "C09"], profiles=["dev", "rel"], cap=300, bounds="both coefficients symbolic, symbolic probe element", encodes=["decoding::chien_search"])
+reg("chien_small", "ecdec", ["C05"], cap=300, bounds="empty and constant polynomials", encodes=["decoding::chien_search"])
+reg("chien_quad", "ecdec", ["C03", "C09"], cap=1800, mem_gb=16, role="attempt", tier="thorough", bounds="three symbolic coefficients, leading != 0; full 255-step search", encodes=["decoding::chien_search"])
+LD = ["syndrome_based::find_inv_error_locations_levinson_durbin"]
+for n in ("k2_z0","k2_z1","k3_z0","k3_z1","k3_z2","k4_z0","k4_z1","k4_z2","k4_z3","k5_z0","k5_z0_ff","k5_z1","k5_z2","k5_z3","k5_z4","k6_z0","k6_z1","k6_z2","k7_z0","k7_z1","k7_z2","k7_z3"):
+    reg("ld_np_" + n, "synd", ["C05"], profiles=["rel", "dev"], cap=900, bounds="syndrome vector of length k, z literal leading zeros, first non-zero syndrome a constant, the rest symbolic; safety only", encodes=LD)
+for n in ("k2_z0","k3_z0","k4_z0","k4_z1","k5_z0","k5_z1","k6_z0","k6_z1","k6_z2","k7_z2"):
+    reg("ld_ct_" + n, "synd", ["C09"], profiles=["rel"], cap=1800, bounds="same inputs; Ok(w) satisfies rows 0..t-1 of the Hankel system", encodes=LD)
+reg("ld_scale", "synd", ["C03", "C09"], profiles=["rel"], cap=900, role="assumption-check", bounds="k=4, factors 2, 0x80, 0xFF, 3 symbolic syndromes", encodes=LD)
+for n in ("bp_1", "bp_2", "bp_3"):
+    reg(n, "synd", ["C03", "C05"], profiles=["rel"], cap=900, bounds="1..3 distinct non-zero locators and arbitrary error values", encodes=["syndrome_based::find_error_values_bp"])
+GEN = ["syndrome_based::decode_gen", "decoding::primitive_element_evaluation", "decoding::chien_search", "syndrome_based::find_error_values_bp"] + LD
+for n in ("k2_b0", "k2_b1", "k3_b0", "k3_b1"):
+    reg("cap_gen_" + n, "synd", ["C03"], profiles=["rel"], cap=1200, bounds="toy interleaved code (stride 2, 5 data codewords, k EC per block): zero codeword + 1 error at a symbolic position/value in the block, symbolic garbage in the other block", encodes=GEN)
+for n in ("k2_z0_b0", "k2_z1_b1", "k3_z0_b0", "k3_z0_b1", "k3_z1_b0", "k3_z2_b1"):
+    reg("ok_gen_" + n, "synd", ["C09", "C05"], profiles=["rel"], cap=2400, mem_gb=16, bounds="toy interleaved code, EVERY byte of the received word symbolic, z leading zero syndromes", encodes=GEN)
+for n in ("k2_z0_b0", "k3_z0_b0", "k3_z0_b1", "k3_z1_b0", "k3_z2_b1"):
+    reg("ok_w2_" + n, "synd", ["C09", "C05"], profiles=["rel"], cap=2400, mem_gb=16, bounds="toy interleaved code: zero codeword + 2 errors (t+1) at symbolic positions/values in the block, garbage in the other block", encodes=GEN)
+for n in ("ok_contract_k2", "ok_contract_k3"):
+    reg(n, "synd", ["C09", "C05"], profiles=["rel"], cap=2400, mem_gb=16, bounds="toy code, every byte symbolic, locator search replaced by its contract", encodes=GEN[:4])
+reg("gen_identity", "synd", ["C01", "C03"], profiles=["rel"], cap=900, bounds="toy code k=3, arbitrary codeword of block 0", encodes=GEN[:2])
+for n in ("ascii_3", "c40_2", "c40_3", "text_2", "x12_3", "x12_4", "x12_5", "edifact_2", "edifact_3", "edifact_4", "edifact_5", "b256_2"):
+    reg("cpl_" + n, "plan", ["C18", "C11"], cap=1800, mem_gb=16, bounds="", encodes=[])
+reg("stub_consts_ok", "sym", ["C08", "C05", "C12"], cap=300, role="stub-validation", bounds="closed terms + symbolic index over the 48 sizes", encodes=SYM[:2])
+TFB = ["placement::MatrixMap::try_from_bits", "placement::MatrixMap::bitmap"]
+for n in ("sq10", "sq12", "r8x18", "r8x32"):
+    reg("fd_strict_" + n, "place", ["C08", "C05"], cap=2400, mem_gb=20, stubbing=True, unwindset=[("btree", 4)], bounds="every pixel of the shape symbolic; SymbolList::all / block_setup / has_padding_modules stubbed to this one size", encodes=TFB)
+for n in ("r8x32", "sq12"):
+    reg("fd_parse_" + n, "place", ["C08", "C01"], cap=2400, mem_gb=20, stubbing=True, unwindset=[("btree", 4)], bounds="every mapping-matrix entry symbolic; same stubs", encodes=TFB)
+reg("fd_ragged_r8x18", "place", ["C08", "C05"], cap=600, stubbing=True, unwindset=[("btree", 4)], bounds="8x18 symbol + 1 / + 17 stray pixels, width 0; pixel values symbolic", encodes=TFB[:1])
+reg("fd_reject_small", "place", ["C08", "C05"], cap=900, stubbing=True, unwindset=[("btree", 4)], bounds="symbolic width 0..=12, length 0..=40; SymbolList::all stubbed to the two smallest sizes", encodes=TFB[:1])
 H = [h for h in ALL]
 
 PROPS = {}
